@@ -1,8 +1,8 @@
-From Mds Require Import Common.ExtractBase Mdiff.FormatInst.
+From Mds Require Import Common.ExtractBase Mdiff.FormatInst Mdiff.FormatPatchOk.
 Require Extraction.
 Require Import ExtrOcamlBasic.
 Extraction "mdifffmt_model.ml" FormatInst.x_normal FormatInst.x_unified FormatInst.x_context
   FormatInst.x_read_normal FormatInst.x_read_unified FormatInst.x_read_git
   FormatInst.x_normal_normalise FormatInst.x_unified_normalise
   FormatInst.x_apply_normal FormatInst.x_apply_unified FormatInst.x_apply_context
-  FormatInst.gen_facts_pinned FormatModel.pinned FormatModel.repaired base_types.
+  FormatPatchOk.patch_okb FormatInst.gen_facts_pinned FormatModel.pinned FormatModel.repaired base_types.
